@@ -46,6 +46,20 @@ def make_witness(contract_name, ctx, model, clause, domain):
 
 def run_witness(w, src):
     """Runs the replay in a fresh process (native pacti must be imported from `src`)."""
+    if w.get("kind") == "U":
+        # finite table world built from the counter-model; the real algebra layer runs natively on it
+        from monitors.lib import replay_in_fresh_process
+
+        rep = replay_in_fresh_process("monitors.m_model", "evaluate", src, w["input"])
+        v = rep.get("violation") if isinstance(rep, dict) else None
+        return {
+            "reproduced": bool(v) and not rep.get("script_error"),
+            "native_violation": v and {"key": v.get("key"), "what": v.get("what"), "all": v.get("all")},
+            "script_error": rep.get("script_error") if isinstance(rep, dict) else None,
+            "primitive_log": rep.get("primitive_log") if isinstance(rep, dict) else None,
+            "error": rep.get("error") if isinstance(rep, dict) else str(rep),
+            "inputs": {k: w["input"].get(k) for k in ("op", "terms", "c1", "c2", "keep", "add", "simplify")},
+        }
     code = "import sys; sys.path.insert(0, %r)\nfrom checker.witness import _replay_main\n_replay_main()\n" % ROOT
     p = subprocess.run([sys.executable, "-c", code], input=json.dumps({"w": w, "src": src}), capture_output=True, text=True, timeout=600)
     for line in p.stdout.splitlines():
